@@ -12,7 +12,7 @@ mkdir -p $base/verif
 ( cd /verif && tar cf - --exclude=./work --exclude=./replays --exclude=./.git . ) | ( cd $base/verif && tar xf - )
 sed -i "s#path = \"/repo\"#path = \"$base/repo\"#" $base/verif/harness/Cargo.toml
 for p in "$@"; do
-  r=$(cd $base/verif && STEVIA_REPO=$base/repo ./check $p 2>&1 | grep -E '^VIOLATION|^check .* ok|^  - ' | head -3 | cut -c1-400 | tr '\n' '|')
+  r=$(cd $base/verif && STEVIA_REPO=$base/repo ./check $p 2>&1 | grep -E '^VIOLATION|^check .* ok|^  - ' | (head -2; tail -1) | cut -c1-300 | tr '\n' '|')
   echo "$tag [$p]: $r"
   [ -d $base/verif/replays ] && mkdir -p /tmp/mut/replays_$tag && cp -r $base/verif/replays/. /tmp/mut/replays_$tag/ 2>/dev/null
 done
